@@ -1180,6 +1180,13 @@ func GetSSRsFromQSR(qsr *QuerySegmentRequest, querySummary *summary.QuerySummary
 	if writer.IsSegKeyUnrotated(qsr.segKey) {
 		rawSearchSSRs = metadata.ExtractUnrotatedSSRFromSearchNode(qsr.sNode, qsr.queryRange,
 			qsr.indexInfo.GetQueryTables(), blocksToRawSearch, querySummary, qsr.qid)
+		if len(rawSearchSSRs) == 0 && !writer.IsSegKeyUnrotated(qsr.segKey) {
+			// The segment got rotated between the check above and the extraction, which then found
+			// nothing under this key. Rotation publishes the rotated metadata before it drops the
+			// unrotated info, so the segment can be searched as a rotated one instead of being skipped.
+			rawSearchSSRs = ExtractSSRFromSearchNode(qsr.sNode, blocksToRawSearch, qsr.queryRange,
+				qsr.indexInfo.GetQueryTables(), querySummary, qsr.qid, isQueryPersistent, qsr.pqid)
+		}
 	} else {
 		rawSearchSSRs = ExtractSSRFromSearchNode(qsr.sNode, blocksToRawSearch, qsr.queryRange,
 			qsr.indexInfo.GetQueryTables(), querySummary, qsr.qid, isQueryPersistent, qsr.pqid)
